@@ -1,7 +1,8 @@
 #!/usr/bin/env python3
 """Harmless edits of a scratch copy of /repo: the listed checks must NOT raise an alarm (exit 0 expected; exit 2 = undecided is
 reported separately; exit 1 = FALSE ALARM)."""
-import os, shutil, subprocess, sys, tempfile
+import os, shutil, subprocess, sys, tempfile, functools
+print = functools.partial(print, flush=True)
 HERE = os.path.dirname(os.path.dirname(os.path.abspath(__file__)))
 REPO = os.environ.get('GECS_REPO', '/repo')
 ST = 'src/archetype/storage.rs'
